@@ -308,5 +308,81 @@ def main(argv):
     return 0
 
 
+
+# ---------------------------------------------------------------- server section
+def _func_params(repo, modname, funcname):
+    rel = f'web_monitoring_diff/{modname}.py'
+    tree = _read(repo, rel)
+    for node in tree.body:
+        if isinstance(node, ast.FunctionDef) and node.name == funcname:
+            a = node.args
+            if a.vararg or a.kwarg or a.posonlyargs:
+                raise TableError(f'{rel}:{funcname}: *args/**kwargs/positional-only parameters are not modelled')
+            names = [x.arg for x in a.args]
+            ndef = len(a.defaults)
+            out = [(n, i >= len(names) - ndef) for i, n in enumerate(names)]
+            for x, d in zip(a.kwonlyargs, a.kw_defaults):
+                out.append((x.arg, d is not None))
+            defaults = {}
+            for n, d in zip(names[len(names) - ndef:], a.defaults):
+                defaults[n] = d.value if isinstance(d, ast.Constant) else '<expr>'
+            return out, defaults
+    raise TableError(f'{rel}: differ function {funcname} not found at module level')
+
+
+def gen_server(repo, out):
+    rel = 'web_monitoring_diff/server/server.py'
+    tree = _read(repo, rel)
+    asg = _module_assigns(tree)
+    routes = _last(asg, 'DIFF_ROUTES', rel)
+    if not isinstance(routes, ast.Dict):
+        raise TableError('DIFF_ROUTES: expected a dict literal')
+    # experimental differs registered inside try/except are reported separately (absent at run time here)
+    entries = []
+    defaults_all = {}
+    for k, v in zip(routes.keys, routes.values):
+        name = _const_str(k, 'DIFF_ROUTES key')
+        if not (isinstance(v, ast.Attribute) and isinstance(v.value, ast.Name)):
+            raise TableError(f'DIFF_ROUTES[{name}]: expected module.function')
+        params, defaults = _func_params(repo, v.value.id, v.attr)
+        entries.append((name, v.value.id, v.attr, params))
+        defaults_all[name] = defaults
+    out.append('(* DIFF_ROUTES: differ name -> parameters (name, has a default), read from each def *)')
+    out.append('Definition diff_routes : list (list N * list (list N * bool)) :=\n  [' + ';\n   '.join(
+        '(%s, [%s])' % (cstr(n), '; '.join('(%s, %s)' % (cstr(p), 'true' if d else 'false') for p, d in params))
+        for n, _, _, params in entries) + '].')
+    out.append('Definition diff_route_functions : list (list N * list N) :=\n  [' + ';\n   '.join(
+        '(%s, %s)' % (cstr(n), cstr(m + '.' + f)) for n, m, f, _ in entries) + '].')
+
+    # DiffHandler.diff(..., tries=2)
+    cls = _find_class(tree, 'DiffHandler', rel)
+    tries = None
+    for node in cls.body:
+        if isinstance(node, (ast.AsyncFunctionDef, ast.FunctionDef)) and node.name == 'diff':
+            names = [x.arg for x in node.args.args]
+            if 'tries' in names:
+                d = node.args.defaults[names.index('tries') - (len(names) - len(node.args.defaults))]
+                if isinstance(d, ast.Constant) and isinstance(d.value, int):
+                    tries = d.value
+    if tries is None:
+        raise TableError('DiffHandler.diff: default of `tries` not found')
+    out.append(f'Definition diff_tries : N := {tries}.')
+
+    # route regex of the diff handler in make_app
+    mk = _find_func(tree, 'make_app', rel)
+    pats = [n.value for n in ast.walk(mk) if isinstance(n, ast.Constant) and isinstance(n.value, str) and n.value.startswith('/')]
+    out.append(f'Definition route_patterns : list (list N) :=\n  {cstr_list(pats)}.')
+
+    for name in ('META_TAG_PATTERN', 'XML_PROLOG_PATTERN'):
+        pat, flags = _re_compile_args(_last(asg, name, rel), name)
+        if not (isinstance(pat, ast.Constant) and isinstance(pat.value, bytes)):
+            raise TableError(f'{name}: expected a bytes literal pattern')
+        out.append(f'Definition {name.lower()}_src : list N := {cstr(pat.value)}.')
+        out.append(f'Definition {name.lower()}_flags : list (list N) := {cstr_list(sorted(flags))}.')
+
+
+SECTIONS.append(gen_server)
+
+
 if __name__ == '__main__':
     sys.exit(main(sys.argv))
